@@ -27,6 +27,19 @@ K2(kind, rv, rs) ==
       [] kind = "z"       -> RDiv(RMul(rv, rv), rs)
       [] OTHER            -> RDiv(rs, RMul(rv, rv))
 
+(* DC quantities: device rating (Vdcn, Idcn) against the DC node voltage base and the current base Sb / Vdcb;             *)
+(* rvd = Vdcn/Vdcb, rid = Idcn/Idcb; a resistance converts with (Vdcn/Idcn)/(Vdcb/Idcb), a conductance-like quantity       *)
+(* (capacitance) with the inverse                                                                                          *)
+DCKinds == {"dc_voltage", "dc_current", "r", "g"}
+KDC(kind, rvd, rid) ==
+    CASE kind = "dc_voltage" -> rvd
+      [] kind = "dc_current" -> rid
+      [] kind = "r"          -> RDiv(rvd, rid)
+      [] OTHER               -> RDiv(rid, rvd)
+ASSUME \A rvd \in {Q(2, 1), Q(1, 2), ROne}, rid \in {Q(1, 2), Q(3, 1), ROne} :
+    /\ REq(RMul(KDC("r", rvd, rid), KDC("g", rvd, rid)), ROne)
+    /\ REq(RMul(KDC("r", rvd, rid), KDC("dc_current", rvd, rid)), KDC("dc_voltage", rvd, rid))
+
 (* identities every consistent set of factors satisfies - checked on a grid *)
 GS == {Q(100, 1), Q(900, 1), Q(50, 1)}
 GV == {Q(230, 1), Q(20, 1), Q(69, 5)}
